@@ -57,7 +57,7 @@ func C16(c *run.Ctx) {
 		withRefresh := variant&2 != 0
 		openid := variant&4 != 0
 		db := (si/8)%3 == 0
-		w := world.New(world.Opts{Mode: world.Mode{ContractDevice: contract, DB: db}, JWTAccess: (si/24)%2 == 1, Cfg: func(cfg *fosite.Config) { cfg.DeviceAndUserCodeLifespan = 5 * time.Minute }})
+		w := world.New(world.Opts{Mode: world.Mode{ContractDevice: contract, DB: db, Hydrate: (si/3)%2 == 1}, JWTAccess: (si/24)%2 == 1, Cfg: func(cfg *fosite.Config) { cfg.DeviceAndUserCodeLifespan = 5 * time.Minute }})
 		client := []string{"conf-a", "pub-c"}[si%2]
 		wrong := "conf-b"
 		scope := "fosite"
